@@ -2,7 +2,7 @@
 from .. import explore, streams
 from ..core import Check, Space
 
-DERIVE = ["Select", "Where", "SelectMany", "Select2", "SelectSame", "SelectAst", "SelectAstSame", "SelectCall", "MD0", "MD1", "QMD", "Awk"]
+DERIVE = ["Select", "Where", "SelectMany", "Select2", "SelectSame", "SelectAst", "SelectAstSame", "SelectCall", "SelectCallSame", "MD0", "MD1", "QMD", "Awk"]
 DERIVE_T = DERIVE + ["TTree", "Pandas", "Parquet", "WhereCall"]
 EXEC = ["Value"]
 EXEC_T = ["Value", "ValueAsync", "ValueT"]
@@ -47,6 +47,14 @@ class Model:
                              "msg": f"stream #{j} ({w.deriv[j]}) changed after {op}: was {w.snap[j][0][:160]} "
                                     f"now {now[0][:160]}"})
                 break
+        if not viol:
+            for s2, snap in w.kept:
+                now = w.observe(s2)
+                if now != snap:
+                    what = "item-type" if now[0] == snap[0] else "query-ast"
+                    viol.append({"kind": f"stream-made-in-a-callback-changed:{what}:by-{op[0]}",
+                                 "msg": f"after {op}: was {snap[0][:160]} | {snap[1]} now {now[0][:160]} | {now[1]}"})
+                    break
         return viol
 
 
@@ -61,7 +69,8 @@ class C11(Check):
             "as strings, as Python callables, as one user-held ast.Lambda / Module-wrapped AST handed to several "
             "streams; executors that record, fail, or edit the tree they are handed in place); "
             "every operation is applicable to every live stream (branching, siblings); after every transition the "
-            "annotated dump and item type of EVERY earlier stream must equal the values recorded at its creation. "
+            "annotated dump and item type of EVERY earlier stream - including the streams the callbacks made and kept - must equal the "
+            "values recorded at its creation. "
             "States are de-duplicated by a heap-graph key that includes node sharing")
     assumptions = [
         "observation = ast.dump-equivalent serialisation plus the _q_metadata/_func_adl_executor/_eds_object "
